@@ -948,6 +948,9 @@ func preRunCases(c *core.Ctx, r *runner, only string) {
 			{[]string{"--format=nexus"}, "nexus", "newick", "tree"},
 			{nil, "", "nexus", "treenexus"},
 			{[]string{"--format=foo"}, "foo", "nexus", "treenexus"},
+			// omitted vs the documented default spelled out on an input that is NOT in the default format
+			// (a reader that guesses the format when the option was not given would part ways here)
+			{[]string{"--format=newick"}, "newick", "nexus", "treenexus"},
 		}},
 		// compute support has a PersistentPreRunE of its own, which must call the root's
 		{"fbp", "compute support fbp", []fr{
@@ -955,6 +958,7 @@ func preRunCases(c *core.Ctx, r *runner, only string) {
 			{[]string{"-b", "{trees}", "--format=newick"}, "newick", "newick", "tree"},
 			{[]string{"-b", "{treesnexus}", "--format=nexus"}, "nexus", "nexus", "treenexus"},
 			{[]string{"-b", "{treesnexus}"}, "", "nexus", "treenexus"},
+			{[]string{"-b", "{treesnexus}", "--format=newick"}, "newick", "nexus", "treenexus"},
 		}},
 		// reformat --input-format is bound to the same variable as --format
 		{"reformat", "reformat newick", []fr{
@@ -963,6 +967,9 @@ func preRunCases(c *core.Ctx, r *runner, only string) {
 			{[]string{"-f", "nexus"}, "nexus", "nexus", "treenexus"},
 			{[]string{"--format=nexus"}, "nexus", "nexus", "treenexus"},
 			{[]string{"-f", "bar"}, "bar", "newick", "tree"},
+			{nil, "", "nexus", "treenexus"},
+			{[]string{"--input-format=newick"}, "newick", "nexus", "treenexus"},
+			{[]string{"--format=newick"}, "newick", "nexus", "treenexus"},
 		}},
 	}
 	for _, fs := range formatSets {
@@ -1133,6 +1140,8 @@ func glueCases(c *core.Ctx, r *runner, only string) {
 //	C19.effect <path> <template>    a template with non-default options against its base template
 //	C19.format|seed|threads <path> <set>   the global options after parsing
 //	C19.glue <set>                  option glue of one anchored command
+//	C19.sentinels                   table (g)
+//	C19.io <kind> <name>            what "stdout" / "stdin" mean for one command (kind out | in)
 //	C19.help <path>                 help text of one command
 //	C19.roundtrip <path> <flag>     Set(DefValue).String() of one flag
 func Replay(c *core.Ctx, lines []string) {
@@ -1164,6 +1173,16 @@ func Replay(c *core.Ctx, lines []string) {
 			emitWrites(c)
 		case "C19.changed":
 			emitChanged(c)
+		case "C19.sentinels":
+			emitSentinels(c)
+		case "C19.io":
+			if c.Gotree == "" || len(f) < 3 {
+				continue
+			}
+			if r == nil {
+				r = newRunner(c, 0)
+			}
+			ioCases(c, r, f[1]+"/"+f[2])
 		case "C19.reads":
 			emitReads(c, table, un(1)+"/"+un(2))
 		case "C19.row":
@@ -1252,6 +1271,7 @@ func Run(c *core.Ctx) {
 	emitOrder(c, table)
 	emitWrites(c)
 	emitChanged(c)
+	emitSentinels(c)
 	emitReads(c, table, "")
 	for i := range table {
 		emitRow(c, table, i)
@@ -1288,6 +1308,7 @@ func Run(c *core.Ctx) {
 			effects(c, r, ts, "")
 			preRunCases(c, r, "")
 			glueCases(c, r, "")
+			ioCases(c, r, "")
 			generatedCases(c, r, "")
 		}
 		r.close()
